@@ -373,7 +373,8 @@ impl GameState {
     /// Returns the piece board for a specified step number.
     /// This may be useful when you are on step n but need the state from an earlier step.
     pub fn piece_board_for_step(&self, step: usize) -> &PieceBoardState {
-        if step == self.current_step() {
+        let current_step = self.as_play_phase().map_or(0, |play_phase| play_phase.step());
+        if step == current_step {
             return self.piece_board.piece_board();
         }
 
